@@ -165,6 +165,110 @@ def compared_constants_deep(m: Module, fn, attr, name=None, depth=3, _seen=None)
     return out
 
 
+def semantic_handled(idx, rel, fname, what, values):
+    """Dispatch decided by evaluating the dispatcher (E5) instead of reading its comparisons: for each kind / base name the
+    function is called on a small synthetic type.  -> {value: True (a result comes back) | False (the function raises its own
+    "unknown" ValueError, returns None or yields nothing) | None (the fold cannot tell)}"""
+    from ..microeval import Interp, Record, Raised, ModuleRef, EagerGen
+    m = idx.get(rel)
+    it = Interp(m.tree, name=rel)
+    # helpers of sibling modules of the plugin (from .x import y)
+    import os
+    for st in m.tree.body:
+        if isinstance(st, ast.ImportFrom) and st.level == 1 and st.module:
+            sib = os.path.join(os.path.dirname(rel), st.module + ".py")
+            if sib in idx.modules:
+                sit = Interp(idx.modules[sib].tree, name=sib)
+                for a in st.names:
+                    if a.name in sit.globals:
+                        it.globals.setdefault(a.asname or a.name, sit.globals[a.name])
+
+    class _AnyCls(dict):
+        def __contains__(self, k):
+            return True
+
+        def __getitem__(self, k):
+            from ..microeval import ClassRef as _CR
+            return _CR(k)
+    it.globals.setdefault("model", ModuleRef("model", attrs=_AnyCls()))
+
+    def T(kind, **kw):
+        return Record("Type", {"kind": kind, "id_": f"id-{kind}", "name": None, "documentation": None, "since": None,
+                               "sinceTags": None, "proposed": None, "deprecated": None, **kw})
+    str_t, int_t = T("base", name="string"), T("base", name="integer")
+    prop = Record("Property", {"name": "p", "type": str_t, "optional": None, "documentation": None, "since": None,
+                               "sinceTags": None, "proposed": None, "deprecated": None, "id_": "pid"})
+    struct = Record("Structure", {"name": "Range", "properties": [prop], "extends": [], "mixins": [], "documentation": None,
+                                  "since": None, "sinceTags": None, "proposed": None, "deprecated": None, "id_": "sid"})
+    spec = Record("LSPModel", {"structures": [struct], "enumerations": [], "typeAliases": [], "requests": [], "notifications": []})
+    samples = {
+        "base": str_t, "reference": T("reference", name="Range"), "array": T("array", element=str_t),
+        "map": T("map", key=str_t, value=int_t), "tuple": T("tuple", items=[str_t, int_t]), "or": T("or", items=[str_t, int_t]),
+        "literal": T("literal", name="SomeLiteral", value=Record("LiteralValue", {"properties": []})),
+        "stringLiteral": T("stringLiteral", value="x"),
+    }
+    types = Record("TypeData", {"get_by_name": ("host", lambda *a, **k: None), "add_type_info": ("host", lambda *a, **k: None),
+                                "has_name": ("host", lambda *a, **k: False), "has_id": ("host", lambda *a, **k: False)})
+    f = it.globals.get(fname)
+    cls_methods = None
+    if f is None:
+        for cname, c in m.classes.items():
+            meths = {x.name: x for x in c.body if isinstance(x, ast.FunctionDef)}
+            if fname in meths:
+                cls_methods = (cname, meths)
+    out = {}
+    for v in values:
+        arg = samples.get(v) if what == "kind" else T("base", name=v)
+        if arg is None:
+            out[v] = None
+            continue
+        try:
+            if cls_methods is not None:
+                cname, meths = cls_methods
+                stubs = {"_has_type": ("host", lambda *a, **k: True), "_lsp_model": spec,
+                         "_add_literal_type": ("host", lambda *a, **k: None)}
+                own = {k: x for k, x in meths.items() if k not in stubs}
+                # class-level tables (kind -> method) are attributes of the instance too
+                from ..microeval import Closure as _Cl
+                cenv = {k: _Cl(x, None, it) for k, x in meths.items()}
+                for cst in m.classes[cname].body:
+                    if isinstance(cst, (ast.Assign, ast.AnnAssign)) and getattr(cst, "value", None) is not None:
+                        tg = cst.targets[0] if isinstance(cst, ast.Assign) else cst.target
+                        if isinstance(tg, ast.Name) and tg.id not in stubs:
+                            try:
+                                stubs[tg.id] = it.eval(cst.value, dict(cenv))
+                                cenv[tg.id] = stubs[tg.id]
+                            except (Raised, AnalysisError):
+                                pass
+                self_rec = Record(cname, stubs, {cname: own})
+                it.classes[cname] = own
+                if "__init__" in meths:
+                    try:
+                        it.call(meths["__init__"], [self_rec] + [spec] * (len(meths["__init__"].args.args) - 1))
+                    except (Raised, AnalysisError):
+                        pass
+                r = it.call(meths[fname], [self_rec, arg, "SomeClass", ""][:len(meths[fname].args.args)])
+            elif fname == "generate_for_base":
+                r = f(v)
+            elif fname == "generate_for_type":
+                r = f(arg, spec, [])
+            elif fname == "lsp_to_base_types":
+                r = f(arg)
+            else:
+                r = f(arg, types, spec)
+        except Raised as e:
+            out[v] = False if e.exc_name in ("ValueError", "KeyError", "NotImplementedError") else None
+            continue
+        except AnalysisError:
+            out[v] = None
+            continue
+        if isinstance(r, (EagerGen, list)):
+            out[v] = len(r) > 0
+        else:
+            out[v] = r is not None and r != ""
+    return out
+
+
 def guards_of(m: Module, node):
     """Expressions known truthy at `node` (as unparsed text), by walking up the syntax tree."""
     known = set()
@@ -277,6 +381,14 @@ def run(ctx: Ctx):
             raise AnalysisError(f"{rel}: kind dispatcher {fname} not found")
         ctx.fn(f"{rel}:{fname}")
         got = compared_constants_deep(m, fn, "kind")
+        if not DISCIPLINE_KINDS <= got:
+            # the dispatcher is not an if-chain / table this lint reads: decide by evaluating it per kind
+            sem = semantic_handled(idx, rel, fname, "kind", sorted(DISCIPLINE_KINDS - got))
+            got |= {k for k, v in sem.items() if v is True}
+            undecided = sorted(k for k, v in sem.items() if v is None)
+            if undecided:
+                raise AnalysisError(f"{rel}:{fname}: cannot tell whether the kinds {undecided} are handled (neither compared "
+                                    "with `.kind` nor foldable)")
         ctx.floor(f"{rel}:{fname} kinds compared", len(got), 6)
         for k in sorted(DISCIPLINE_KINDS):
             ctx.check(k in got, "kind-exhaustive", f"{rel.split('/')[2]}:{fname}:{k}",
@@ -300,6 +412,13 @@ def run(ctx: Ctx):
             raise AnalysisError(f"{rel}: base-type mapper {fname} not found")
         ctx.fn(f"{rel}:{fname}")
         got = compared_constants_deep(m, fn, "name", "name")
+        want_b = {b for b in base_types if b not in excl}
+        if not want_b <= got:
+            sem = semantic_handled(idx, rel, fname, "base", sorted(want_b - got))
+            got |= {k for k, v in sem.items() if v is True}
+            undecided = sorted(k for k, v in sem.items() if v is None)
+            if undecided:
+                raise AnalysisError(f"{rel}:{fname}: cannot tell whether the base types {undecided} are handled")
         handled_by[rel] = got
         ctx.floor(f"{rel}:{fname} base names compared", len(got), 6)
         for b in base_types:
@@ -314,10 +433,22 @@ def run(ctx: Ctx):
     fv = pm.functions.get("_generate_field_validator")
     if fv is None:
         raise AnalysisError(f"{P_PYUTILS}: _generate_field_validator not found")
-    vnames = compared_constants_deep(pm, fv, "name", "name")
-    for b in ("integer", "uinteger", "string", "boolean", "decimal", "DocumentUri", "URI"):
-        ctx.check(b in vnames, "base-name-exhaustive", f"python:_generate_field_validator:{b}",
-                  f"no validator is selected for base type '{b}'", P_PYUTILS, fv.lineno)
+    # evaluated (E5) per base type: the emitted attrs.field(...) text names the validator of that base type
+    from ..microeval import Interp as _VI, Record as _VR, Raised as _VRaised
+    vit = _VI(pm.tree, name=P_PYUTILS)
+    want_v = {"integer": "integer_validator", "uinteger": "uinteger_validator", "string": "instance_of(str)",
+              "boolean": "instance_of(bool)", "decimal": "instance_of(float)", "DocumentUri": "instance_of(str)",
+              "URI": "instance_of(str)"}
+    for b, needle in want_v.items():
+        for optional in (False, True):
+            try:
+                txt = vit.call(fv, [_VR("Type", {"kind": "base", "name": b}), optional])
+            except _VRaised as e:
+                txt = f"<raises {e.exc_name}>"
+            ok = isinstance(txt, str) and needle in txt and (("validators.optional(" in txt) == optional)
+            ctx.check(ok, "base-name-exhaustive", f"python:_generate_field_validator:{b}:optional={optional}",
+                      f"for base type '{b}' (optional={optional}) the field is emitted as `{txt}`; it must carry {needle}"
+                      + (" wrapped in validators.optional" if optional else ""), P_PYUTILS, fv.lineno)
 
     # ---- (c) optional-attribute discipline
     n_reads = 0
